@@ -592,4 +592,84 @@ theorem readAll_rw (optAll : Bool) : ∀ (fuel : Nat) (reads : List Read),
       · exact absurd hce ((hok c (by simp)).1 _)
       · exact absurd hce (hok c (by simp)).2
 
+/-! ### the whole stream: reference state at every cut -/
+
+theorem readLoop_rest_wf (optAll : Bool) :
+    ∀ (reads : List Read) (s : St) (buf orig : List UInt8), WF reads →
+    WF (readLoop optAll reads s buf orig).2 := by
+  intro reads
+  induction reads with
+  | nil => intro s buf orig h; simpa [readLoop] using h
+  | cons rd rest ih =>
+    intro s buf orig h
+    have h' : WF rest := fun r hr => h r (by simp [hr])
+    simp only [readLoop]
+    cases hrl : runLine (↑buf.length) s 0 rd.line [] with
+    | panic => exact h'
+    | err s' out r => exact h'
+    | done s' out =>
+      dsimp only
+      split
+      · exact h'
+      · split
+        · split
+          · exact ih _ _ _ h'
+          · exact h'
+        · exact ih _ _ _ h'
+
+/-- the bracket depth of the reference lexer never goes negative on any prefix of `pre ++ bs` beyond `pre` -/
+def NonNeg (pre bs : List UInt8) : Prop := ∀ k, 0 ≤ (rlex (pre ++ bs.take k)).depth
+
+theorem readAll_balanced (optAll : Bool) : ∀ (fuel : Nat) (reads : List Read) (pre : List UInt8),
+    WF reads → rlex pre = ⟨.code, 0⟩ → NonNeg pre (reads.map (·.line)).flatten →
+    ∀ (cs₁ : List Chunk) (c : Chunk) (cs₂ : List Chunk), readAll optAll fuel reads = cs₁ ++ c :: cs₂ →
+    (∀ c' ∈ cs₁, c'.err = .nil) → c.err = .nil →
+    rlex (pre ++ (cs₁.map (·.orig)).flatten ++ c.orig) = ⟨.code, 0⟩ := by
+  intro fuel
+  induction fuel with
+  | zero => intro reads pre _ _ _ cs₁ c cs₂ h; simp [readAll] at h
+  | succ fuel ih =>
+    intro reads pre hwf hpre hnn cs₁ c cs₂ hsplit hall hc
+    have htr := readLoop_tracks optAll reads init [] [] hwf rfl
+    have hcons := readLoop_consumes optAll reads init [] []
+    have hrwf := readLoop_rest_wf optAll reads init [] [] hwf
+    simp only [readAll, readMultiline] at hsplit
+    cases hr : readLoop optAll reads init [] [] with
+    | mk c0 rest =>
+      simp only [hr] at hsplit htr hcons hrwf
+      simp only [List.nil_append] at hcons
+      -- the first chunk, when it is a cut, ends in code context at depth 0
+      have hfirst : c0.err = .nil → rlex (pre ++ c0.orig) = ⟨.code, 0⟩ := by
+        intro h0
+        obtain ⟨d, hd, hle⟩ := htr.1 h0
+        have h1 : rlex (pre ++ c0.orig) = ⟨.code, d⟩ := by
+          rw [rlex_append, hpre]; exact hd
+        have h2 := hnn c0.orig.length
+        rw [← hcons, List.take_left'] at h2
+        · rw [h1] at h2; simp only at h2
+          have : d = 0 := by omega
+          rw [h1, this]
+        · rfl
+      cases cs₁ with
+      | nil =>
+        have hc0 : c = c0 := by
+          cases hce : c0.err <;> simp [hce] at hsplit <;> simp [hsplit]
+        subst hc0
+        simpa using hfirst hc
+      | cons c1 cs₁' =>
+        have hc1 : c1 = c0 ∧ readAll optAll fuel rest = cs₁' ++ c :: cs₂ := by
+          cases hce : c0.err <;> simp [hce] at hsplit <;> simp [hsplit]
+        obtain ⟨h10, hrest⟩ := hc1
+        subst h10
+        have h0 : c1.err = .nil := hall c1 (by simp)
+        have hpre' := hfirst h0
+        have hnn' : NonNeg (pre ++ c1.orig) (rest.map (·.line)).flatten := by
+          intro k
+          have := hnn (c1.orig.length + k)
+          rw [← hcons] at this
+          simpa [List.take_append, List.take_of_length_le, List.append_assoc] using this
+        have := ih rest (pre ++ c1.orig) hrwf hpre' hnn' cs₁' c cs₂ hrest
+          (fun c' hc' => hall c' (by simp [hc'])) hc
+        simpa [List.append_assoc] using this
+
 end ReadMulti
